@@ -87,13 +87,16 @@ impl ElixirDate {
         }
 
         let map = term.as_map()?;
-        let year = map.get(&OwnedTerm::Atom(Atom::new("year")))?.as_integer()? as i32;
-        let month = map
-            .get(&OwnedTerm::Atom(Atom::new("month")))?
-            .as_integer()? as u8;
-        let day = map.get(&OwnedTerm::Atom(Atom::new("day")))?.as_integer()? as u8;
+        let year =
+            i32::try_from(map.get(&OwnedTerm::Atom(Atom::new("year")))?.as_integer()?).ok()?;
+        let month = u8::try_from(
+            map.get(&OwnedTerm::Atom(Atom::new("month")))?
+                .as_integer()?,
+        )
+        .ok()?;
+        let day = u8::try_from(map.get(&OwnedTerm::Atom(Atom::new("day")))?.as_integer()?).ok()?;
 
-        Some(Self { year, month, day })
+        Self::try_new(year, month, day)
     }
 }
 
@@ -215,18 +218,26 @@ impl ElixirTime {
         }
 
         let map = term.as_map()?;
-        let hour = map.get(&OwnedTerm::Atom(Atom::new("hour")))?.as_integer()? as u8;
-        let minute = map
-            .get(&OwnedTerm::Atom(Atom::new("minute")))?
-            .as_integer()? as u8;
-        let second = map
-            .get(&OwnedTerm::Atom(Atom::new("second")))?
-            .as_integer()? as u8;
+        let hour =
+            u8::try_from(map.get(&OwnedTerm::Atom(Atom::new("hour")))?.as_integer()?).ok()?;
+        let minute = u8::try_from(
+            map.get(&OwnedTerm::Atom(Atom::new("minute")))?
+                .as_integer()?,
+        )
+        .ok()?;
+        let second = u8::try_from(
+            map.get(&OwnedTerm::Atom(Atom::new("second")))?
+                .as_integer()?,
+        )
+        .ok()?;
 
         let (microsecond_value, microsecond_precision) =
             if let Some(us) = map.get(&OwnedTerm::Atom(Atom::new("microsecond"))) {
                 if let Some((val, prec)) = us.as_2_tuple() {
-                    (val.as_integer()? as u32, prec.as_integer()? as u8)
+                    (
+                        u32::try_from(val.as_integer()?).ok()?,
+                        u8::try_from(prec.as_integer()?).ok()?,
+                    )
                 } else {
                     (0, 0)
                 }
@@ -234,13 +245,13 @@ impl ElixirTime {
                 (0, 0)
             };
 
-        Some(Self {
+        Self::try_new(
             hour,
             minute,
             second,
             microsecond_value,
             microsecond_precision,
-        })
+        )
     }
 }
 
@@ -409,23 +420,34 @@ impl ElixirNaiveDateTime {
         }
 
         let map = term.as_map()?;
-        let year = map.get(&OwnedTerm::Atom(Atom::new("year")))?.as_integer()? as i32;
-        let month = map
-            .get(&OwnedTerm::Atom(Atom::new("month")))?
-            .as_integer()? as u8;
-        let day = map.get(&OwnedTerm::Atom(Atom::new("day")))?.as_integer()? as u8;
-        let hour = map.get(&OwnedTerm::Atom(Atom::new("hour")))?.as_integer()? as u8;
-        let minute = map
-            .get(&OwnedTerm::Atom(Atom::new("minute")))?
-            .as_integer()? as u8;
-        let second = map
-            .get(&OwnedTerm::Atom(Atom::new("second")))?
-            .as_integer()? as u8;
+        let year =
+            i32::try_from(map.get(&OwnedTerm::Atom(Atom::new("year")))?.as_integer()?).ok()?;
+        let month = u8::try_from(
+            map.get(&OwnedTerm::Atom(Atom::new("month")))?
+                .as_integer()?,
+        )
+        .ok()?;
+        let day = u8::try_from(map.get(&OwnedTerm::Atom(Atom::new("day")))?.as_integer()?).ok()?;
+        let hour =
+            u8::try_from(map.get(&OwnedTerm::Atom(Atom::new("hour")))?.as_integer()?).ok()?;
+        let minute = u8::try_from(
+            map.get(&OwnedTerm::Atom(Atom::new("minute")))?
+                .as_integer()?,
+        )
+        .ok()?;
+        let second = u8::try_from(
+            map.get(&OwnedTerm::Atom(Atom::new("second")))?
+                .as_integer()?,
+        )
+        .ok()?;
 
         let (microsecond_value, microsecond_precision) =
             if let Some(us) = map.get(&OwnedTerm::Atom(Atom::new("microsecond"))) {
                 if let Some((val, prec)) = us.as_2_tuple() {
-                    (val.as_integer()? as u32, prec.as_integer()? as u8)
+                    (
+                        u32::try_from(val.as_integer()?).ok()?,
+                        u8::try_from(prec.as_integer()?).ok()?,
+                    )
                 } else {
                     (0, 0)
                 }
@@ -433,7 +455,7 @@ impl ElixirNaiveDateTime {
                 (0, 0)
             };
 
-        Some(Self {
+        Self::try_new(
             year,
             month,
             day,
@@ -442,7 +464,7 @@ impl ElixirNaiveDateTime {
             second,
             microsecond_value,
             microsecond_precision,
-        })
+        )
     }
 }
 
@@ -671,23 +693,34 @@ impl ElixirDateTime {
         }
 
         let map = term.as_map()?;
-        let year = map.get(&OwnedTerm::Atom(Atom::new("year")))?.as_integer()? as i32;
-        let month = map
-            .get(&OwnedTerm::Atom(Atom::new("month")))?
-            .as_integer()? as u8;
-        let day = map.get(&OwnedTerm::Atom(Atom::new("day")))?.as_integer()? as u8;
-        let hour = map.get(&OwnedTerm::Atom(Atom::new("hour")))?.as_integer()? as u8;
-        let minute = map
-            .get(&OwnedTerm::Atom(Atom::new("minute")))?
-            .as_integer()? as u8;
-        let second = map
-            .get(&OwnedTerm::Atom(Atom::new("second")))?
-            .as_integer()? as u8;
+        let year =
+            i32::try_from(map.get(&OwnedTerm::Atom(Atom::new("year")))?.as_integer()?).ok()?;
+        let month = u8::try_from(
+            map.get(&OwnedTerm::Atom(Atom::new("month")))?
+                .as_integer()?,
+        )
+        .ok()?;
+        let day = u8::try_from(map.get(&OwnedTerm::Atom(Atom::new("day")))?.as_integer()?).ok()?;
+        let hour =
+            u8::try_from(map.get(&OwnedTerm::Atom(Atom::new("hour")))?.as_integer()?).ok()?;
+        let minute = u8::try_from(
+            map.get(&OwnedTerm::Atom(Atom::new("minute")))?
+                .as_integer()?,
+        )
+        .ok()?;
+        let second = u8::try_from(
+            map.get(&OwnedTerm::Atom(Atom::new("second")))?
+                .as_integer()?,
+        )
+        .ok()?;
 
         let (microsecond_value, microsecond_precision) =
             if let Some(us) = map.get(&OwnedTerm::Atom(Atom::new("microsecond"))) {
                 if let Some((val, prec)) = us.as_2_tuple() {
-                    (val.as_integer()? as u32, prec.as_integer()? as u8)
+                    (
+                        u32::try_from(val.as_integer()?).ok()?,
+                        u8::try_from(prec.as_integer()?).ok()?,
+                    )
                 } else {
                     (0, 0)
                 }
@@ -701,12 +734,16 @@ impl ElixirDateTime {
         let zone_abbr = map
             .get(&OwnedTerm::Atom(Atom::new("zone_abbr")))?
             .as_erlang_string()?;
-        let utc_offset = map
-            .get(&OwnedTerm::Atom(Atom::new("utc_offset")))?
-            .as_integer()? as i32;
-        let std_offset = map
-            .get(&OwnedTerm::Atom(Atom::new("std_offset")))?
-            .as_integer()? as i32;
+        let utc_offset = i32::try_from(
+            map.get(&OwnedTerm::Atom(Atom::new("utc_offset")))?
+                .as_integer()?,
+        )
+        .ok()?;
+        let std_offset = i32::try_from(
+            map.get(&OwnedTerm::Atom(Atom::new("std_offset")))?
+                .as_integer()?,
+        )
+        .ok()?;
 
         Some(Self {
             year,
